@@ -306,6 +306,16 @@ func oracleC02(f *sessionFam, w *World, res *Result) []Violation {
 			delivered[j] = true
 			i = j + 1
 		}
+		// a conformant client submits well-formed packets only: none of them may be taken for a malformed one
+		if f.sc.FaultFree && closeSeq != 0 && len(sp.Cand) == 0 {
+			if ce := w.evs(a, "close"); len(ce) > 0 && ce[0].S == "parse error" {
+				gone := w.evs(a, "c-gone")
+				if len(gone) == 0 || gone[0].Seq > ce[0].Seq {
+					tr := transportOf(ce[0].St)
+					l.add("well-formed-packet-rejected", strings.TrimPrefix(sctx+"/"+tr, "/"), fmt.Sprintf("%s [%s]: the session was closed with 'parse error' although the client submitted well-formed packets only", a, ctx))
+				}
+			}
+		}
 		// completeness: a fault-free conformant client, session open to the end
 		if f.sc.FaultFree && f.ended && readyOf(f.snap[a]) == "open" && f.conformantToEnd(w, a) {
 			for k, s := range sends {
